@@ -74,6 +74,7 @@ CLAUSES = {
     "composition": "System.composition/ensures.counts_instances_per_species",
     "getitem_int": "System.__getitem__/ensures.int_index_agrees_with_file_order",
     "index_error": "System.__getitem__/ensures.no_molecule_outside_range_some_exception",
+    "index_consistent": "System.__getitem__/ensures.out_of_range_indices_refused_consistently",
     "slices": "System.__getitem__/ensures.slices_agree_with_file_order",
     "refuses": "System.add_molecule_top/ensures.refuses_topology_without_matching_run",
     "loads": "System.add_molecule_top/ensures.accepts_topology_of_present_species_after_reads",
@@ -136,8 +137,8 @@ def _info_bounded(prop):
                         "System(fgro, *ftops), and the clauses of the statement are evaluated on the public API: iteration "
                         "against the generator's record list (one molecule per instance, file order, contiguous disjoint runs, "
                         "names equal to the topology's, names and coordinates equal to the file's), len and "
-                        "composition against the record list, every int index in [-len, len), no molecule (some exception) "
-                        "outside, 20 fixed "
+                        "composition against the record list, every int index in [-len, len), no molecule (some exception, "
+                        "one and the same type for all out-of-range indices tried on one System) outside, 20 fixed "
                         "slices (plain, negative bounds, stepped, reversed) and a second iteration against the first iteration, "
                         "refusal (any exception) of every absent topology added last or loaded first, including a Y,Y "
                         "topology whose residue kinds are in the file but never as a run.  Each task evaluates one clause "
@@ -493,13 +494,26 @@ def check_system(s, exp, records, res, only=None, index_stride=1):
             res.bad(ck, f"System[{i}] raises {_exc(e)}; {what} has {R} molecules", index=i,
                     exc=type(e).__name__)
     # --- outside the range no molecule is returned: some exception is raised (the statement names no type)
+    #     and every out-of-range index of one System is refused in the same way (one exception type, whatever it
+    #     is): "integer indexing (including negative) ... agree with each other".  For an empty System the
+    #     indices tried are 0, 1, 5, -1, -2.
+    refused = {}
     for i in (R, R + 1, R + 5, -R - 1, -R - 2) if sel("index_error") else ():
         try:
             m = s[i]
             res.bad("index_error", f"System[{i}] returns {_short(fingerprint(m))} although {what} has {R} molecules",
                     index=i)
-        except Exception:
+        except Exception as e:
             res.ok("index_error")
+            refused.setdefault(type(e).__name__, []).append(i)
+    if sel("index_error") and refused:
+        if len(refused) > 1:
+            res.bad("index_consistent", f"out-of-range indices of one System ({what} has {R} molecules) are refused with "
+                                        f"different exception types: "
+                                        + "; ".join(f"{t} for {ix}" for t, ix in sorted(refused.items())),
+                    types=sorted(refused))
+        else:
+            res.ok("index_consistent")
     # --- slices
     for grp, lst in SLICE_GROUPS.items():
         if not sel("slices:" + grp):
@@ -997,6 +1011,8 @@ class _Proxy:
             return self._real[i]
         if self._mode == "no-index-error" and i >= n:
             return self._real[n - 1]
+        if self._mode == "odd-exception-type" and i == n:
+            raise ValueError("deliberately different refusal")
         if self._mode == "last-is-first" and i == -1:
             return self._real[0]
         return self._real[i]
@@ -1077,6 +1093,7 @@ def task_guards(maxlen, seed):
         with contextlib.redirect_stdout(io.StringIO()):
             real = _System()(fg, *[files.ftops[k] for k in order])
             for mode, clause, want in (("no-index-error", "index_error", {"index_error"}),
+                                       ("odd-exception-type", "index_consistent", {"index_consistent"}),
                                        ("last-is-first", "getitem_int", {"getitem_int[i<0]"}),
                                        ("slice-ignores-step", "slices", {"slices[stepped]", "slices[reversed]"})):
                 r = Result()
